@@ -31,6 +31,7 @@ import Rustic.Props.C06
 import Rustic.Lemmas.StorePipeline
 import Rustic.Lemmas.SnapshotArchive
 import Rustic.Lemmas.TreeIter
+import Rustic.Lemmas.Times
 namespace Rustic.Props.C01
 open Rustic.RoundTrip
 
@@ -419,6 +420,17 @@ theorem indexer_files_satisfy_hfiles (c : Cfg) (k : Conc) (s : PSt) (maxCount : 
   intro p
   rw [indexer_files_list_every_pack, List.map_fst_zip (by omega)]
 
+/-- (13) **Restored times are exact.**  The `timespec` `LocalDestination::set_times` writes for a snapshot timestamp (jiff:
+seconds truncated toward zero, sub-second part with the sign of the instant) denotes exactly the same instant, in normal form
+(whole seconds rounded down, nanoseconds in `[0, 10^9)`) — before and after the epoch, with any sub-second part — and reading
+it back as a timestamp gives the snapshot's timestamp. -/
+theorem restored_time_is_exact (t : Rustic.Times.JTime) (h : t.WF) :
+    (Rustic.Times.toFileTime t).1 * Rustic.Times.NS + (Rustic.Times.toFileTime t).2 = t.nanos ∧
+    0 ≤ (Rustic.Times.toFileTime t).2 ∧ (Rustic.Times.toFileTime t).2 < Rustic.Times.NS ∧
+    Rustic.Times.ofFileTime (Rustic.Times.toFileTime t).1 (Rustic.Times.toFileTime t).2 = t :=
+  ⟨(Rustic.Times.toFileTime_exact t h).1, (Rustic.Times.toFileTime_exact t h).2.1, (Rustic.Times.toFileTime_exact t h).2.2,
+   Rustic.Times.ofFileTime_toFileTime t h⟩
+
 /-! non-vacuity -/
 
 example : EncAscii (fun c => if c.toNat < 128 then [UInt8.ofNat c.toNat] else [0xc3, 0xa9]) :=
@@ -489,5 +501,9 @@ example :
       { id := i, size := none, blobs := (List.range n).map fun b => { id := 10 * i + b, tpe := .data, loc := ⟨0, 1, none⟩ } }
     let r := Rustic.Store.Ixr.run 3 [(p 1 2, false), (p 2 2, false), (p 3 1, true), (p 4 1, false)]
     r.saved.map (fun f => f.packs.map (·.id)) = [[1, 2], [3], [4]] := by decide
+
+/-- −1.25 s is (−1, −250 000 000) for jiff and (−2, 750 000 000) as a `timespec` -/
+example : Rustic.Times.toFileTime ⟨-1, -250000000⟩ = (-2, 750000000) ∧ (⟨-1, -250000000⟩ : Rustic.Times.JTime).WF := by
+  refine ⟨by decide, by unfold Rustic.Times.JTime.WF Rustic.Times.NS; simp⟩
 
 end Rustic.Props.C01
